@@ -24,7 +24,8 @@
 (*                                                                                    *)
 (*   layout = how the written array lies in memory: "contig", "step2" (every second   *)
 (*            row of a buffer), "reversed" (negative stride), "column2d" (a column of  *)
-(*            a 2-d structured array), "zerod" (a 0-d array: one row).  The table is   *)
+(*            a 2-d structured array), "zerod" (a 0-d array: one row), "table2d" (a 2-d *)
+(*            structured array: its rows are its elements in C order).  The table is   *)
 (*            the array AS INDEXED; the layout must not show in the file.              *)
 (*   header values: a value read back gets the id of the written value iff it is equal *)
 (*            to it (Python ==), a float nan being matched by a float nan (the         *)
@@ -43,7 +44,7 @@ SelfReaders == {"SFile.read", "SFile[:]", "SFile.reopen", "sfile.read", "io.read
 GivenReaders == {"Recfile.read", "Recfile.read(nrows)", "Recfile[:]", "recfile.read", "io.read(dtype)"}
                                                                                        \* are given dtype and data offset
 Readers     == SelfReaders \cup GivenReaders
-Layouts     == {"contig", "step2", "reversed", "column2d", "zerod"}
+Layouts     == {"contig", "step2", "reversed", "column2d", "zerod", "table2d"}
 
 \* ---- dtypes --------------------------------------------------------------------------------
 KindOK(k, sz) == CASE k \in {"i", "u"} -> sz \in {1, 2, 4, 8}
